@@ -14,9 +14,6 @@ open Pydap.Quote
 
 /-! ### names without a literal `%2E` -/
 
-/-- the (quoted) name has no `%2E`: `DatasetType.__setitem__` would not see a `.` in it -/
-def nameEsc (n : Str) : Bool := (splitOn dot (rep3 [37] [50] [69] dot n)).length == 1
-
 def escOk : Forest → Bool
   | .nil => true
   | .cons h kids rest => nameEsc h.name && escOk kids && escOk rest
